@@ -80,7 +80,7 @@ func genProgressConfig(rng *vbase.Rng) (Config, map[hotstuff.ID]bool) {
 func c05Progress(p vbase.Params, r *vbase.Result) {
 	r.Rule = "bounded-progress restatement: a hostile prefix (async-chaos / partition-heal / twins-lockstep, <= f crashed, silent-twin or silent-scripted replicas fixed up front) followed by a SYNCHRONOUS suffix among the " +
 		"live honest quorum Q (per round: deliver every pending message between members of Q in FIFO order; if nothing was delivered every member's timer fires; in every second suffix delays are unequal: each message takes one or two rounds, links are FIFO and interleaved in PRNG order, so votes may overtake the proposal they answer - in half of those the slow message is always the proposal's copy to the next leader; timers fire only when nothing is in flight, a PRNG-chosen subset first and the rest one round later unless restarted), following views led by members of Q " +
-		"(scripted and fixed schedules for any faulty set, round-robin only with an empty one), commands always available; claim: every member of Q commits a new block before max-view(Q) grew by 4*ChainLength+2 views " +
+		"(scripted and fixed schedules for any faulty set, round-robin only with an empty one), commands always available (and a command cache holding a full fresh batch always has its wake-up pending); claim: every member of Q commits a new block before max-view(Q) grew by 4*ChainLength+2 views " +
 		"and within 60 rounds; non-trivial: members of Q were >= 2 views apart or a timeout certificate was needed at healing time; distinct: prefix trace"
 	r.Assume("liveness is decided only as bounded progress in logical rounds of the simulator; unbounded 'eventually', real-time timers and dynamic view-duration adaptation are out of reach of this technique")
 	n := p.N(900, 90000)
@@ -168,6 +168,12 @@ func c05Progress(p vbase.Params, r *vbase.Result) {
 					map[string]any{"seed": p.Seed, "shard": p.Shard, "case": i, "config": cfg.String(), "trace_tail": tail})
 			}
 			_ = r.Write(p.Out)
+		}
+		c.OnCachedBatchWithoutWakeup = func(a *Actor, fresh int) {
+			r.Violate(vbase.Sig("commands-cached-but-no-wakeup", "ruleset", cfg.Ruleset),
+				fmt.Sprintf("%s holds %d fresh commands (batch size %d) but its command cache has no pending wake-up: the next proposal would wait for a new client command although commands are available [%s]",
+					a.Name(), fresh, cfg.BatchSize, cfg.String()), map[string]any{"seed": p.Seed, "shard": p.Shard, "case": i, "config": cfg.String()})
+			c.OnCachedBatchWithoutWakeup = nil
 		}
 		// prefix: hostile; scripted actors stay silent (they are crash/silent faults here), twins run
 		savedScripted := cfg.Scripted
